@@ -93,7 +93,29 @@ func c02SSO(r *core.Run, idx int, rng *rand.Rand) {
 		c.Req.ProtocolBinding = []string{spsim.BindPost, spsim.BindRedirect, spsim.BindArtifact, "x"}[rng.Intn(4)]
 		c.Req.ACSURL = evilURL(rng)
 	case 4:
-		c.Req.ACSURL = c.SPD.ACS[rng.Intn(len(c.SPD.ACS))].Location + ".evil-" + randHex(rng, 3) + ".example"
+		// near misses of a registered URL: "the same endpoint" for a lenient comparison, another origin / target for a browser
+		reg := c.SPD.ACS[rng.Intn(len(c.SPD.ACS))].Location
+		switch rng.Intn(6) {
+		case 0:
+			c.Req.ACSURL = reg + ".evil-" + randHex(rng, 3) + ".example"
+		case 1:
+			c.Req.ACSURL = strings.Replace(reg, "https://spa.example", "https://spa.example:8443", 1)
+		case 2:
+			sep := "?"
+			if strings.Contains(reg, "?") {
+				sep = "&"
+			}
+			c.Req.ACSURL = reg + sep + "next=" + evilURL(rng)
+		case 3:
+			c.Req.ACSURL = strings.Replace(reg, "https://spa.example", "https://SPA.Example", 1)
+		case 4:
+			c.Req.ACSURL = strings.Replace(reg, "/ep/", "/ep%2F", 1)
+		default:
+			c.Req.ACSURL = reg + "#" + evilURL(rng)
+		}
+		if c.Req.ACSURL == reg {
+			c.Req.ACSURL = reg + "/x"
+		}
 	}
 	c.HasRel, c.Relay = true, evilURL(rng)
 	if rng.Intn(5) == 0 {
@@ -374,8 +396,22 @@ func c02Registration(r *core.Run, idx int, rng *rand.Rand) {
 		if fail {
 			a.Destination = "https://wrong.example/SSO"
 		}
+		early := rng.Intn(4) == 0 // fails before any consumer service is known: nothing may be delivered to an SP
+		if early {
+			a.Issuer = "https://unregistered-" + randHex(rng, 3) + ".example/metadata"
+		}
 		s := ssoSend{Binding: []string{"redirect", "post"}[rng.Intn(2)], XML: a.XML(rng), HasRelay: true, Relay: "MKrelay"}
+		if early && rng.Intn(2) == 0 {
+			s.XML = "<broken"
+		}
 		call, _ := s.do(e)
+		if early {
+			r.Count("registration_sequence_early_failures", 1)
+			if call.Panic == "" && (call.D.Kind == "form" || call.D.Kind == "redirect") {
+				r.Violate(core.Violation{Clause: "delivered_although_requester_unknown", Class: fmt.Sprintf("registration|step=%d|early_failure", k), Reason: fmt.Sprintf("a request that fails before its service provider is known was answered by %s delivery to %q", call.D.Kind, call.D.Target), Workload: wl, Index: idx, Observed: call.Describe()})
+			}
+			continue
+		}
 		class := fmt.Sprintf("registration|version=%d|step=%d|fail=%v", version, k, fail)
 		desc := map[string]any{"step": k, "current_acs": d.ACS, "requested_binding": a.ProtocolBinding}
 		r.Eval(fmt.Sprintf("%s|%d", class, idx))
@@ -428,6 +464,7 @@ func init() {
 			r.Require("callback_replies_redirect", 50)
 			r.Require("logout_replies_form", 50)
 			r.Require("registration_targets_checked", 100)
+			r.Require("registration_sequence_early_failures", 50)
 			return []core.Workload{
 				{Name: "sso_targets", N: c.Pick(900, 9000), Fn: c02SSO},
 				{Name: "callback_targets", N: c.Pick(400, 4000), Fn: c02Callback},
